@@ -14,7 +14,11 @@ GEN_TARGETS = ('Tables',)
 DRIVER_MAIN = 'Main/Pearson.lean'
 DRIVER_TARGETS = ['CopVerif.Driver.Pearson']
 ALWAYS_SEARCH = True
-RULE = ('tables of 2-6 columns x 20-300 rows: 1-3 base columns (normal / uniform / gamma / beta / bimodal / '
+RULE = ('[input forms: every third tie table and 25% of search tables are given to fit as list of rows / Fortran / '
+        'strided / read-only ndarray or a frame with Datetime / string / offset / shuffled row index (search also 1-d, '
+        '(n,1), Series, single-column frame) and compared with the plain DataFrame / ndarray of the same values; object '
+        'states: every search table is also examined restored through from_dict (both routes), save/load and as a '
+        'get_instance clone] ''tables of 2-6 columns x 20-300 rows: 1-3 base columns (normal / uniform / gamma / beta / bimodal / '
         'integer-valued, random location and scale 1e-3..1e3) plus derived columns: exact duplicate, sign flip, '
         'affine image a*x+b, sum of two columns, constant, near-constant (c*(1+1e-9 noise) or constant except '
         '1-2 rows), noisy copy; column labels are shuffled strings or ints; crossed with every marginal '
@@ -310,7 +314,8 @@ class CondRecorder:
 def fit_real(names, cols, spec, seed=7, hist=None):
     """Fit the real model.  `hist` = {'tables': [cols_0, ...], 'as_array': bool}: the SAME instance is first fitted
     on the earlier tables (same labels, other data); the recorder only sees the last fit.  With `as_array` every
-    fit receives a bare ndarray (labels are then 0..k-1 = `names`)."""
+    fit receives a bare ndarray (labels are then 0..k-1 = `names`).  `hist['form']` = input form of the LAST fit
+    (see `apply_form`); the reference is always the plain DataFrame / plain ndarray of the same values."""
     from copulas.multivariate import GaussianMultivariate
     X = pd.DataFrame({nm: c for nm, c in zip(names, cols)}, columns=list(names))
     cfg = build_config(spec, names)
@@ -330,9 +335,67 @@ def fit_real(names, cols, spec, seed=7, hist=None):
                 labels = list(ct.get('labels') or range(len(hc)))
             H = pd.DataFrame({nm: c for nm, c in zip(labels, hc)}, columns=labels)
             model.fit(H.to_numpy() if arr else H)
+        form = (hist.get('form') if hist else None) or ('ndarray' if as_array else 'frame')
         with CondRecorder() as rec:
-            model.fit(X.to_numpy() if as_array else X)
+            model.fit(apply_form(X, form))
     return X, model, rec.calls
+
+
+# input forms of the training table.  ARRAY forms carry no labels (the columns are 0..k-1); ONE_COLUMN forms need k = 1
+ARRAY_FORMS = ('ndarray', '1d-ndarray', 'n1-ndarray', 'list-of-lists', 'fortran', 'strided', 'readonly')
+FRAME_FORMS = ('frame', 'series', 'single-column-frame', 'index-datetime', 'index-strings', 'index-offset',
+               'index-shuffled')
+ONE_COLUMN_FORMS = ('1d-ndarray', 'n1-ndarray', 'series', 'single-column-frame')
+MULTI_COLUMN_FORMS = ('list-of-lists', 'fortran', 'strided', 'readonly', 'index-datetime', 'index-strings',
+                      'index-offset', 'index-shuffled')
+
+
+def apply_form(X, form):
+    """the same values as the plain DataFrame X (plain ndarray for ARRAY forms) in another container / layout."""
+    n, k = X.shape
+    if form == 'frame' or form == 'single-column-frame':
+        return X
+    if form == 'ndarray' or form == 'n1-ndarray':
+        return X.to_numpy()
+    if form == '1d-ndarray':
+        return X.iloc[:, 0].to_numpy()
+    if form == 'series':
+        return X.iloc[:, 0]
+    if form == 'list-of-lists':
+        return X.to_numpy().tolist()
+    if form == 'fortran':
+        return np.asfortranarray(X.to_numpy())
+    if form == 'strided':
+        a = X.to_numpy()
+        big = np.zeros((n, 2 * k), dtype=a.dtype)
+        big[:, ::2] = a
+        return big[:, ::2]
+    if form == 'readonly':
+        a = np.array(X.to_numpy(), copy=True)
+        a.setflags(write=False)
+        return a
+    if form == 'index-datetime':
+        return X.set_axis(pd.date_range('2020-01-01', periods=n, freq='h'), axis=0)
+    if form == 'index-strings':
+        return X.set_axis([f'r{i}' for i in range(n)], axis=0)
+    if form == 'index-offset':
+        return X.set_axis(list(range(1000, 1000 + n)), axis=0)
+    if form == 'index-shuffled':
+        return X.set_axis(list(np.random.RandomState(n).permutation(n)), axis=0)
+    raise ValueError(form)
+
+
+def gen_form(rng, names, cols, spec, form=None):
+    """-> (names, cols, spec, hist) for the same table given to `fit` in another input form."""
+    form = form or rng.choice(ONE_COLUMN_FORMS + MULTI_COLUMN_FORMS + MULTI_COLUMN_FORMS)
+    if form in ONE_COLUMN_FORMS:
+        j = rng.randrange(len(names))
+        spec = restrict_config(spec, [names[j]])
+        names, cols = [names[j]], [cols[j]]
+    if form in ARRAY_FORMS:
+        spec = remap_config(spec, names, list(range(len(names))))
+        names = list(range(len(names)))
+    return names, cols, spec, {'tables': [], 'as_array': form in ARRAY_FORMS, 'form': form}
 
 
 def remap_config(spec, old, new):
@@ -487,14 +550,18 @@ def run(ctx, lean):
         if t % 3 == 1:
             names, spec, hist, variant = gen_mixed_history(rng, nr, names, spec)
             ctx.count('history:' + variant)
+        elif t % 3 == 2:                     # the same table in another container / layout / row index
+            names, cols, spec, hist = gen_form(rng, names, cols, spec,
+                                               rng.choice([f for f in MULTI_COLUMN_FORMS if f != 'list-of-lists']))
+            ctx.count('form:' + hist['form'])
         else:
             ctx.count('history:first-fit')
         inp = {'names': names, 'kinds': kinds, 'config': spec, 'n': len(cols[0])}
         if set(dtype_names(cols)) != {'float64'}:
             inp['dtypes'] = dtype_names(cols)
         if hist is not None:
-            inp['refit_history'] = {'rows': [len(h[0]) for h in hist['tables']], 'containers': hist['containers'],
-                                    'last_is_array': hist['as_array']}
+            inp['refit_history'] = {'rows': [len(h[0]) for h in hist['tables']], 'containers': hist.get('containers'),
+                                    'last_is_array': hist['as_array'], 'form': hist.get('form')}
         try:
             X, model, calls = fit_real(names, cols, spec, hist=hist)
         except Exception as e:  # noqa: a fit that raises is not a correspondence question (see search)
@@ -699,12 +766,34 @@ def _oracle_core(names, cols, spec, hist=None, info=None):
     try:
         X, model, calls = fit_real(names, cols, spec, hist=hist)
     except Exception as e:  # noqa
+        if hist and hist.get('form') == 'list-of-lists' and isinstance(e, AttributeError) and 'dtype' in str(e):
+            # cause: the `check_valid_values` decorator reads `X.dtype` before `_validate_input` wraps the list
+            return [('fit:list-of-lists-input-raises-AttributeError', f'{type(e).__name__}: {str(e)[:120]}',
+                     'a numeric table given as a list of rows is fitted like the DataFrame of the same values')]
         return [('fit:raises', f'{type(e).__name__}: {str(e)[:120]}', 'fit succeeds on a numeric table')]
     k = len(names)
     Cdf = model.correlation
     C = np.asarray(Cdf.to_numpy(), dtype=float)
     history_dependent = False
-    if hist is not None and C.shape == (k, k):
+    if hist is not None and hist.get('form') and not hist['tables']:
+        # the learned correlation is a function of the VALUES and column labels of the table, not of its container,
+        # memory layout or row index
+        try:
+            _, plain, _ = fit_real(names, cols, spec, hist={'tables': [], 'as_array': hist.get('as_array')})
+            F = np.asarray(plain.correlation.to_numpy(), dtype=float)
+            d = first_diff(F, C, ATOL)
+            lf, lm = labels_of(plain), labels_of(model)
+        except Exception as e:  # noqa
+            d, F, lf, lm = f'plain fit raises {type(e).__name__}', None, None, None
+        if d or lf != lm:
+            out.append(('fit:depends-on-input-form',
+                        {'form': hist['form'], 'shape': list(C.shape), 'plain_shape': list(F.shape) if F is not None else None,
+                         'labels': lm, 'plain_labels': lf, 'entries_first_difference(plain vs form)': d},
+                        'the correlation (shape, labels, entries) learned from a 1-d / (n,1) array, Series, list of '
+                        'lists, Fortran / strided / read-only array or a frame with a non-default row index equals the '
+                        'one learned from the same values as a plain DataFrame / ndarray (entrywise 1e-12)'))
+            return out
+    if hist is not None and hist['tables'] and C.shape == (k, k):
         # the learned correlation (labels and entries) is a function of the input of THIS fit call only
         try:
             _, fresh, _ = fit_real(names, cols, spec, hist={'tables': [], 'as_array': hist.get('as_array')})
@@ -859,6 +948,7 @@ def _oracle_core(names, cols, spec, hist=None, info=None):
                                 'each entry = Pearson correlation (float64) of the two columns after fitted marginal '
                                 'cdf (as the marginal evaluates it on the stored values), clip to [EPSILON, 1-EPSILON], '
                                 'standard normal quantile (NaN -> 0; diagonal up to the ridge)'))
+    out.extend(object_states(model, X, hist, C, calls))
     # sampling / density after regularisation
     try:
         with np.errstate(all='ignore'), warnings.catch_warnings():
@@ -922,6 +1012,70 @@ def in_constant_mode(u):
     return False
 
 
+def object_states(model, X, hist, C, calls):
+    """The matrix the model HOLDS in every legitimate object state is the learned one: restored through
+    to_dict/from_dict (class route and generic `Multivariate.from_dict`), through save/load, and learned again by a
+    `get_instance` clone from the same input.  Bitwise for the restored states (entrywise 1e-12 for the clone), same
+    labels; in particular an added ridge is kept, so the held matrix stays regularised."""
+    import os
+    import sys
+    import tempfile
+    from copulas.multivariate import GaussianMultivariate, Multivariate
+    from copulas.utils import get_instance
+    out = []
+    ridge_applied = bool(calls) and calls[0][1] > 1.0 / sys.float_info.epsilon
+    states = []
+    with np.errstate(all='ignore'), warnings.catch_warnings():
+        warnings.simplefilter('ignore')
+        try:
+            d = model.to_dict()
+            for tag, f in (('from_dict', GaussianMultivariate.from_dict), ('from_dict', Multivariate.from_dict)):
+                try:
+                    states.append((tag, 'class route' if f.__self__ is GaussianMultivariate else 'generic route', f(d)))
+                except Exception as e:  # noqa: restoring the univariates is another property's subject
+                    states.append(('note', f'from_dict raises {type(e).__name__}', None))
+        except Exception as e:  # noqa
+            states.append(('note', f'to_dict raises {type(e).__name__}', None))
+        try:
+            os.makedirs('/scratch/c02/tmp', exist_ok=True)
+            with tempfile.TemporaryDirectory(dir='/scratch/c02/tmp') as td:
+                path = os.path.join(td, 'm.pkl')
+                model.save(path)
+                states.append(('load', 'save/load', GaussianMultivariate.load(path)))
+        except Exception as e:  # noqa
+            states.append(('note', f'save/load raises {type(e).__name__}', None))
+        try:
+            clone = get_instance(model)
+            form = (hist.get('form') if hist else None) or ('ndarray' if hist and hist.get('as_array') else 'frame')
+            clone.fit(apply_form(X, form))
+            states.append(('clone', 'get_instance clone fitted on the same input', clone))
+        except Exception as e:  # noqa
+            states.append(('note', f'clone raises {type(e).__name__}', None))
+    want = labels_of(model)
+    for tag, how, m in states:
+        if tag == 'note':
+            out.append(('note:object-state:' + how.replace(' ', '-'), {}, ''))
+            continue
+        try:
+            R = np.asarray(m.correlation.to_numpy(), dtype=float)
+            same = bits_equal(R, C) if tag != 'clone' else first_diff(C, R, ATOL) is None
+            lab = labels_of(m)
+        except Exception as e:  # noqa
+            same, R, lab = False, None, f'{type(e).__name__}'
+        if not same or lab != want:
+            ok_shape = R is not None and R.shape == C.shape
+            out.append((f'{tag}:correlation-not-the-learned-matrix',
+                        {'state': how, 'ridge_was_added_by_fit': ridge_applied,
+                         'first_difference(learned vs held)': first_diff(C, R, 0.0) if ok_shape else 'shape/exception',
+                         'max_abs_diff': float(np.nanmax(np.abs(R - C))) if ok_shape else None,
+                         'held_min_eigenvalue': float(np.linalg.eigvalsh((R + R.T) / 2)[0]) if ok_shape else None,
+                         'held_cond': float(np.linalg.cond(R)) if ok_shape else None,
+                         'labels_equal': lab == want},
+                        'the model restored / cloned in this state holds exactly the learned correlation (same '
+                        'labels, bitwise; an added ridge is kept so the matrix stays regularised)'))
+    return out
+
+
 def labels_of(model):
     """every place the fitted model shows its column labels, with the label types."""
     def lab(v):
@@ -941,6 +1095,7 @@ def payload_of(names, cols, spec, kinds=None, hist=None):
          'dtypes': dtype_names(cols)}
     if hist is not None:
         d['refit_history'] = {'as_array': bool(hist.get('as_array')), 'containers': hist.get('containers'),
+                              'form': hist.get('form'),
                               'tables': [[[float(v) for v in c] for c in h] for h in hist['tables']]}
     return d
 
@@ -953,7 +1108,7 @@ def from_payload(p):
     hist = None
     if p.get('refit_history') is not None:
         h = p['refit_history']
-        hist = {'as_array': bool(h.get('as_array')), 'containers': h.get('containers'),
+        hist = {'as_array': bool(h.get('as_array')), 'containers': h.get('containers'), 'form': h.get('form'),
                 'tables': [[np.array(c, dtype=float) for c in t] for t in h['tables']]}
     return names, cols, p['config'], hist
 
@@ -1077,6 +1232,24 @@ def storage_cause_probes():
     ]
 
 
+def form_probes():
+    """every input form once (deterministic), on a table with a duplicated column (ridge added) where possible."""
+    r = np.random.RandomState(21)
+    n = 40
+    a = r.randn(n)
+    b = 0.5 * a + r.randn(n)
+    g = ['class', 'GaussianUnivariate']
+    out = []
+    for form in ONE_COLUMN_FORMS:
+        nm = [0] if form in ARRAY_FORMS else ['a']
+        out.append((nm, [a], g, ['probe:form:' + form], {'tables': [], 'as_array': form in ARRAY_FORMS, 'form': form}))
+    for form in MULTI_COLUMN_FORMS:
+        nm = [0, 1, 2] if form in ARRAY_FORMS else ['a', 'b', 'dup']
+        out.append((nm, [a, b, a.copy()], g, ['probe:form:' + form],
+                    {'tables': [], 'as_array': form in ARRAY_FORMS, 'form': form}))
+    return out
+
+
 def history_probes():
     """the same estimator instance fitted twice on tables with identical labels but different data / marginal
     shapes (DataFrames, and bare arrays of the same width).  (names, cols, spec, kinds, hist)"""
@@ -1155,7 +1328,7 @@ def search(ctx, deep):
     ndefault = 0
     seen_cls = set()
     noted, max_native_dev = False, 0.0
-    probes = fixed_probes() + history_probes() + dtype_probes()
+    probes = fixed_probes() + history_probes() + dtype_probes() + form_probes()
     for t in range(len(probes) + ntables):
         hist = None
         if t < len(probes):
@@ -1171,9 +1344,13 @@ def search(ctx, deep):
             spec = gen_config(rng, names, allow_default)
             if spec[0] == 'default' or (spec[0] == 'dict' and len(spec[1]) < len(names)):
                 ndefault += 1
-            if rng.random() < 0.35:        # the estimator instance was fitted before (same / mixed containers)
+            r_ = rng.random()
+            if r_ < 0.35:                  # the estimator instance was fitted before (same / mixed containers)
                 names, spec, hist, variant = gen_mixed_history(rng, nr, names, spec)
                 ctx.count('search:history:' + variant)
+            elif r_ < 0.6:                 # the same table in another input form
+                names, cols, spec, hist = gen_form(rng, names, cols, spec)
+                ctx.count('search:form:' + hist['form'])
         res = oracle(names, cols, spec, hist)
         checked += 1
         ctx.count('search:tables')
